@@ -856,7 +856,10 @@ class C09(Check):
                 if degenerate(pts):
                     lo, hi = min(map(tuple, pts)), max(map(tuple, pts))
                     exp = [list(lo)] if lo == hi else [list(lo), list(hi)]
-                if out != {'ok': exp}:
+                got = out.get('ok') if isinstance(out, dict) else None
+                same = (got is None and exp is None) or (got is not None and exp is not None and
+                                                          sorted(map(tuple, got)) == sorted(map(tuple, exp)))
+                if not same:     # (the order of the two extremes is not fixed by the statement)
                     bad('extremes', f'collinear_extremes({short(pts, 200)}) is {out}, expected {exp}')
         elif case.kind == 'walk':
             cyc = {tuple(k): [tuple(n) for n in ns] for k, ns in inp['edges']}
@@ -865,9 +868,10 @@ class C09(Check):
             else:
                 vs = [tuple(p) for p in out['ok']]
                 n = len(vs)
-                if sorted(vs) != sorted(cyc) or vs[0] != min(cyc) or \
+                # the statement asks for boundary order; it does not fix the start vertex or the direction
+                if sorted(vs) != sorted(cyc) or \
                         any(vs[(i + 1) % n] not in cyc[vs[i]] for i in range(n)):
-                    bad('walk-order', f'walk over a cycle dict does not list the cycle from its smallest node: {vs}')
+                    bad('walk-order', f'walk over a cycle dict does not list the cycle in boundary order: {vs}')
         elif case.kind == 'history':
             if 'ok' not in out:
                 return fs
